@@ -49,3 +49,36 @@ Section K.
   Lemma filename_injective : forall a b, module_filename sha1_hex a = module_filename sha1_hex b -> a = b.
   Proof. intros a b H. unfold module_filename in H. apply app_inv_tail in H. now apply key_injective. Qed.
 End K.
+
+Lemma str_eqb_eq : forall a b, str_eqb a b = true <-> a = b.
+Proof. intros a b. unfold str_eqb. destruct (list_eq_dec N.eq_dec a b); split; congruence. Qed.
+
+Section L.
+  Variable sha1_hex : str -> str.
+  Hypothesis sha1_injective : forall a b, sha1_hex a = sha1_hex b -> a = b.
+  Variable normal : str -> option str.
+
+  Lemma has_module_iff : forall names n,
+    has_module sha1_hex (compile_archive sha1_hex names) n = existsb (str_eqb n) names.
+  Proof.
+    intros names n. unfold has_module, compile_archive. induction names as [|m r IH]; [reflexivity|].
+    cbn [map existsb]. rewrite IH. f_equal.
+    destruct (str_eqb n m) eqn:E.
+    - apply str_eqb_eq in E. subst. now apply str_eqb_eq.
+    - destruct (str_eqb (template_key sha1_hex n) (template_key sha1_hex m)) eqn:E2; [|reflexivity].
+      apply str_eqb_eq in E2. apply (key_injective sha1_hex sha1_injective) in E2. subst.
+      assert (H : str_eqb m m = true) by now apply str_eqb_eq. congruence.
+  Qed.
+
+  Lemma load_agrees : forall names name,
+    (forall n, existsb (str_eqb n) names = true -> normal n = Some n) ->
+    module_load sha1_hex normal (compile_archive sha1_hex names) name = source_load normal names name.
+  Proof.
+    intros names name Hn. unfold module_load, source_load. rewrite !has_module_iff.
+    destruct (existsb (str_eqb name) names) eqn:E.
+    - rewrite (Hn name E), E. reflexivity.
+    - destruct (normal name) as [n|]; [|reflexivity].
+      rewrite has_module_iff. destruct (str_eqb n name) eqn:E2; [|reflexivity].
+      apply str_eqb_eq in E2. subst n. now rewrite E.
+  Qed.
+End L.
